@@ -1082,6 +1082,10 @@ def run(run):
                        "concrete tensor class sets it in its constructor)"]
     total_cap = 55 if run.tier == "quick" else 780
     secs = sections(run.tier)
+    if run.tier == "quick":
+        # the two expensive sections last: they may use the time the others did not need
+        secs = [x for x in secs if x[0] not in ("apply-esup", "apply-sup")] + \
+               [x for x in secs if x[0] == "apply-esup"] + [x for x in secs if x[0] == "apply-sup"]
     only = os.environ.get("VERIF_C04_SECTIONS")      # development aid: run a subset of sections
     if only:
         secs = [x for x in secs if x[0] in only.split(",")]
